@@ -26,7 +26,28 @@ def oracle(req, impl, build):
     return {"index": O.index_oracle, "choose": O.choose_oracle, "single": O.choose_oracle}[k](req, impl)
 
 
+def huge(binary, build):
+    """single() over an iterator of more than 2^32 items without a usable size hint (the reservoir path; release build, two generators in parallel,
+    8 s): both picks among the last 16 items has probability 1.4e-17 under exact uniformity - a 32-bit item counter makes exactly that happen"""
+    n = (1 << 32) + 8
+    reqs = ["bigsingle n=%d seed=5 gen=wyrand" % n, "bigsingle n=%d seed=6 gen=splitmix" % n]
+    outs = C.run_parallel(binary, reqs)
+    picks = []
+    for q, o in zip(reqs, outs):
+        if not o.startswith("ok:") or o == "ok:none":
+            yield {"kind": "oracle", "build": build, "request": q, "impl": o, "model": "", "oracle": "single() over 2^32 + 8 items returned nothing / failed: " + o}
+        else:
+            picks.append(int(o[3:]))
+    if len(picks) == 2 and all(p >= n - 16 for p in picks):
+        yield {"kind": "oracle", "build": build, "request": reqs[0], "requests": reqs, "impl": str(picks), "model": "", "oracle": "single() over 2^32 + 8 items picked one of the last 16 items under two different generators (%s): probability 1.4e-17 under exact uniformity" % picks}
+    elif any(p >= n for p in picks):
+        yield {"kind": "oracle", "build": build, "request": reqs[0], "impl": str(picks), "model": "", "oracle": "single() returned an item that is not in the collection"}
+    yield {"kind": "count", "what": "huge-collection-items", "n": 2 * n}
+
+
 def extra(binary, build, tier, rng):
+    if build == "release":
+        yield from huge(binary, build)
     if build != "dev" and tier == "quick":
         return          # the exhaustive / statistical searches run once per quick check (dev profile)
     from .enum_oracle import run_enum
